@@ -7,11 +7,11 @@ const SPEC: Spec = Spec {
     engine: "E-prod (exhaustive enumeration of bases x exponents x exponent types; real code vs a running product in refint)",
     rule: "every (base, exponent) of the stated families through Pow for each exponent type (u8,u16,u32,u64,usize,u128,BigUint; base and exponent by value and by reference) and the inherent pow(u32), compared with refint's running product p_e = p_(e-1)*x (one schoolbook multiplication per step), 0^0 = 1, negative exactly when x < 0 and e odd; non-trivial = |x| >= 2 and e >= 2",
     assumptions: &[
-        "fixed base set (26 values incl. 2- and 3-digit patterns, both signs); exponents bounded (every e up to the bound, hence every trailing-zero / set-bit pattern below it)",
+        "fixed base set (48 values incl. 2- and 3-digit patterns, both signs); exponents bounded (every e up to the bound, hence every trailing-zero / set-bit pattern below it)",
         "BigUint exponents beyond u128 are exercised only with bases 0 and +-1 (anything else must exhaust memory: out of scope)",
     ],
-    bounds_quick: "26 bases x every e in 0..=200; bases 0,+-1,+-2 x every e < 4096; BigUint exponents at 2^64-1, 2^64, 2^128-1, 2^128, 2^200 with bases 0,+-1",
-    bounds_thorough: "26 bases x every e in 0..=600 (3-digit bases up to e=300); bases 0,+-1,+-2 x every e < 16384; edge exponents",
+    bounds_quick: "48 bases x every e in 0..=200; bases 0,+-1,+-2 x every e < 4096; BigUint exponents at 2^64-1, 2^64, 2^128-1, 2^128, 2^200 with bases 0,+-1",
+    bounds_thorough: "48 bases x every e in 0..=600 (3-digit bases up to e=300); bases 0,+-1,+-2 x every e < 16384; edge exponents",
     hang_secs: 60,
     probes: None,
     max_workers: 16,
@@ -19,7 +19,7 @@ const SPEC: Spec = Spec {
 
 fn bases() -> Vec<Int> {
     let mut v = vec![Int::zero()];
-    for m in [vec![1u64], vec![2], vec![3], vec![10], vec![0xffff_ffff], vec![0x1_0000_0000], vec![alpha::M], vec![0, 1], vec![1, 1], alpha::pat(2, 10), alpha::pat(3, 10), alpha::pat(3, 0)] {
+    for m in [vec![1u64], vec![2], vec![3], vec![10], vec![0xffff_ffff], vec![0x1_0000_0000], vec![alpha::M], vec![0, 1], vec![1, 1], alpha::pat(2, 10), alpha::pat(3, 10), alpha::pat(3, 0), vec![0x8000_0000], vec![0x1_0000_0001], vec![0x1_ffff_ffff], vec![alpha::H - 1], vec![alpha::H], vec![alpha::H + 1], vec![0xffff_ffff_0000_0000], vec![0xffff_fffe_ffff_ffff], vec![alpha::M - 1], vec![alpha::M, 0xffff_ffff], vec![0, alpha::H]] {
         v.push(Int::new(false, Nat::from_digits(&m)));
         v.push(Int::new(true, Nat::from_digits(&m)));
     }
